@@ -25,7 +25,7 @@ def pattern(rng, first):
     if k < 0.6:
         return f'"{first}{tail}"i'
     if k < 0.85:
-        return "/" + first + rng.choice(["b+", "[ab]c", "a?c", "(bc)*d", "\\d{2}", "x{1,2}y", ""]) + "/"
+        return "/" + first + rng.choice(["b+", "[ab]c", "a?c", "(bc)*d", "\\d{2}", "x{1,2}y", "", "([^b]c)?", "[^1]*0|" + first, "([^ab]|c)*;"]) + "/"
     return f'("{first}" /' + rng.choice(["b+c", "[01]", "c?d"]) + "/)"
 
 
